@@ -76,6 +76,15 @@ def cases(tier, rng):
         ("nlargest", {"n": 2}, [["i", 2], ["n"], ["i", 1]]), ("nsmallest", {"n": 1}, [["n"], ["i", 1]]),
         ("min", {"default": ["l", ["i", 1]]}, []), ("max", {"key": 0, "default": ["l", ["i", 1]]}, []),
         ("reduce", {}, []), ("min", {}, []), ("max", {"key": 0}, []),
+        # `+` between different sequence kinds raises where an in-place `+=` on an intermediate list would not
+        ("sum", {"start": ["l"]}, [["l", ["i", 1]], ["t", ["i", 2]]]),
+        ("sum", {"start": ["l"]}, [["l", ["i", 1]], ["l", ["i", 2]], ["t", ["i", 3]]]),
+        ("sum", {"start": ["l", ["i", 0]]}, [["l", ["i", 1]], ["s", "ab"]]),
+        ("sum", {"start": ["t"]}, [["t", ["i", 1]], ["l", ["i", 2]]]),
+        # summable objects whose `+=` works in place and whose `0 + x` is `x` itself: no input item may change
+        ("sum", {}, [["acc", 1], ["acc", 2], ["acc", 3]]), ("sum", {}, [["acc", 1], ["acc", 2]]), ("sum", {}, [["acc", 5]]),
+        ("sum", {"start": ["acc", 10]}, [["acc", 1], ["acc", 2], ["acc", 3]]),
+        ("reduce", {"fn": "add"}, [["acc", 1], ["acc", 2], ["acc", 3]]),
     ]
     # odd winners: the selected element is None / a fill-like object / the empty tuple / False (what an "empty" marker,
     # a truthiness test or a private sentinel is most easily confused with); the key function maps them to 0
@@ -97,8 +106,22 @@ def cases(tier, rng):
     for tool, params, script in special:
         for kind in KINDS:
             fns = [dict(KEYF, flavour="async")] if params.get("key") is not None else ([dict(PAIR, flavour="def")] if tool == "reduce" else [])
+            if params.get("fn") == "add":
+                params, fns = {}, [{"kind": "add", "flavour": "async"}]
             yield {"tool": tool, "params": params, "srcs": [{"kind": kind, "script": script}], "fns": fns,
                    "cons": {"fin": "exhaust"}}
+    # a user callable that raises the end-of-iteration signal itself (it advanced an iterator of its own): an aggregation
+    # is a coroutine, so the signal must surface as it does from the builtin, never be read as "the input is empty"
+    for tool, params, fn in (("reduce", {}, PAIR), ("reduce", {"initial": ["o", 900, 1]}, PAIR), ("min", {"key": 0}, KEYF),
+                             ("max", {"key": 0}, KEYF), ("sorted", {"key": 0}, KEYMOD), ("nlargest", {"n": 2, "key": 0}, KEYMOD),
+                             ("nsmallest", {"n": 1, "key": 0}, KEYMOD)):
+        for ln in (1, 2, 3, 4):
+            for k in range(ln):
+                for i, kind in enumerate(KINDS):
+                    yield {"tool": tool, "params": params, "family": "stopfault",
+                           "srcs": [{"kind": kind, "script": [["o", j, j % 2] for j in range(ln)]}],
+                           "fns": [dict(fn, flavour=s1.FLAV[(i + k) % 4], fail_at=k, fail_kind="stop")], "cons": {"fin": "exhaust"}}
+    yield from _pyobj_cases()
     yield from s1.odd_value_cases(tier, rng, KINDS, 300 if tier == "quick" else 5000, tools_subset=["all", "any", "list", "tuple"])
     nr = 3000 if tier == "quick" else 50000
     g = grid(tier)
@@ -111,6 +134,125 @@ def cases(tier, rng):
                "fns": [dict(f, flavour=rng.choice(s1.FLAV)) for f in fns], "cons": {"fin": "exhaust"}}
 
 
+# ---------------------------------------------------------------------------------------------
+# inputs that are real Python objects of the less common iterable types, compared directly with the builtin
+
+
+import collections as _collections
+
+_Point = _collections.namedtuple("_Point", "x y z")
+_Pair = _collections.namedtuple("_Pair", "k v")
+
+
+class _RevTuple(tuple):
+    """tuple subclass that iterates backwards"""
+
+    def __iter__(self):
+        return iter([self[i] for i in range(len(self) - 1, -1, -1)])
+
+
+class _DupList(list):
+    """list subclass whose iteration yields every element twice"""
+
+    def __iter__(self):
+        for x in list.__iter__(self):
+            yield x
+            yield x
+
+
+class _FalsyIterable:
+    """an iterable (not an iterator) that is falsy although it has items"""
+
+    def __init__(self, xs):
+        self.xs = xs
+
+    def __bool__(self):
+        return False
+
+    def __iter__(self):
+        return iter(self.xs)
+
+
+def _pyobj(name):
+    ints = [3, 1, 2, 1]
+    return {
+        "tuple": lambda: tuple(ints), "namedtuple": lambda: _Point(3, 1, 2), "revtuple": lambda: _RevTuple(ints),
+        "duplist": lambda: _DupList(ints), "dict": lambda: {3: "c", 1: "a", 2: "b"}, "dictitems": lambda: {3: "c", 1: "a"}.items(),
+        "str": lambda: "cab", "bytes": lambda: b"cab", "range": lambda: range(4, 0, -1), "frozenset": lambda: frozenset([2]),
+        "deque": lambda: _collections.deque(ints), "falsy": lambda: _FalsyIterable(ints), "empty-tuple": lambda: (),
+        "empty-str": lambda: "", "genexp": lambda: (x for x in ints), "pairs-namedtuple": lambda: [_Pair(1, "a"), (2, "b"), _Pair(1, "c")],
+        "bools": lambda: (True, False, True), "floats-tuple": lambda: (0.5, 1.5),
+    }[name]()
+
+
+_PYOBJ_NAMES = ["tuple", "namedtuple", "revtuple", "duplist", "dict", "dictitems", "str", "bytes", "range", "frozenset", "deque",
+                "falsy", "empty-tuple", "empty-str", "genexp", "pairs-namedtuple", "bools", "floats-tuple"]
+_PYOBJ_TOOLS = ["all", "any", "sum", "min", "max", "list", "tuple", "set", "dict", "sorted", "reduce", "nlargest", "nsmallest"]
+
+
+def _pyobj_cases():
+    for name in _PYOBJ_NAMES:
+        for tool in _PYOBJ_TOOLS:
+            if tool == "dict" and name == "dict":
+                continue    # dict(mapping) copies the mapping (CPython looks for .keys()); asyncstdlib.dict takes iterables of pairs only - documented
+            yield {"tool": tool, "family": "pyobj", "input": name, "params": {}, "srcs": [{"kind": "list", "script": [["s", name]]}],
+                   "fns": [], "cons": {"fin": "exhaust"}}
+
+
+def _deep(v):
+    if isinstance(v, (list, tuple)):
+        return [type(v).__name__] + [_deep(x) for x in v]
+    if isinstance(v, (set, frozenset)):
+        return [type(v).__name__] + sorted(map(repr, v))
+    if isinstance(v, dict):
+        return [type(v).__name__] + [[_deep(k), _deep(x)] for k, x in v.items()]
+    return [type(v).__name__, repr(v)]
+
+
+def _observe_pyobj(case):
+    import builtins, functools, heapq, operator
+    import asyncstdlib as A
+    from world import drive, exc_name
+    tool, name = case["tool"], case["input"]
+    extra = {"reduce": (operator.add,), "nlargest": (2,), "nsmallest": (2,)}.get(tool, ())
+
+    def call(fn, obj, side):
+        if tool in ("nlargest", "nsmallest"):      # heapq.nlargest(n, iterable) / asyncstdlib.nlargest(iterable, n)
+            return fn(obj, 2) if side == "async" else fn(2, obj)
+        return fn(extra[0], obj) if extra else fn(obj)
+    out = {}
+    for side in ("async", "sync"):
+        obj = _pyobj(name)
+        before = _deep(obj) if not name == "genexp" else None
+        try:
+            if side == "async":
+                fn = getattr(A, tool)
+                r = drive(call(fn, obj, side))
+                if r.exc is not None:
+                    raise r.exc
+                res = r.value
+            else:
+                fn = {"reduce": functools.reduce, "nlargest": heapq.nlargest, "nsmallest": heapq.nsmallest}.get(tool) or getattr(builtins, tool)
+                res = call(fn, obj, side)
+            o = ["returned", _deep(res)]
+        except BaseException as exc:  # noqa: B036
+            o = ["raised", exc_name(exc)]
+        out[side] = {"out": o, "vis": [], "mutated": [] if before is None or _deep(obj) == before else ["input"]}
+    return out
+
+
+def observe(case):  # noqa: F811
+    if case.get("family") == "pyobj":
+        return _observe_pyobj(case)
+    return s1.observe(case)
+
+
+def _norm_stop(out):
+    if out[0] == "raised" and out[1] in (["lib", "StopIteration"], ["lib", "StopAsyncIteration"]):
+        return ["raised", ["lib", "Stop(Async)Iteration"]]
+    return out
+
+
 def _is_float_case(case):
     return any(e[0] == "f" for e in case["srcs"][0]["script"]) or (case["params"].get("start") or [""])[0] == "f"
 
@@ -119,6 +261,8 @@ def judge(case, obs, model):
     issues = []
     a, s = obs["async"], obs["sync"]
     tool = case["tool"]
+    if case.get("family") == "stopfault":
+        a, s = dict(a, out=_norm_stop(a["out"])), dict(s, out=_norm_stop(s["out"]))
     if a["out"] != s["out"]:
         if a["out"][0] == "raised" and s["out"][0] == "raised":
             tag = "exception-type-differs:" + tool
@@ -150,7 +294,7 @@ def _plain(j):
 def model_request(case):  # noqa: F811
     """the special value domains (lists, strings, floats) are outside the Lean value model"""
     vals = list(case["srcs"][0]["script"]) + [v for k, v in case["params"].items() if isinstance(v, list)]
-    if not all(_plain(v) for v in vals):
+    if not all(_plain(v) for v in vals) or case.get("family") in ("pyobj", "stopfault"):
         return None
     if case["tool"] in ("min", "max", "sorted", "nlargest", "nsmallest") and case["params"].get("key") is None \
             and any(v[0] == "t" for v in case["srcs"][0]["script"]):
